@@ -13,12 +13,16 @@ import FitModel.Generated.ProfileTables
 -- @family typedseq Drv.Typed.hSeq
 -- @family typedmark Drv.Typed.hMark
 -- @family typednils Drv.Typed.hNils
+-- @family typedmsm Drv.Typed.hMSM
 /-!
 Driver for the family `typed` (C13): the generic model `Fit.Typed.ofMesg` / `toMesg` instantiated with the
 regenerated per-message tables (`Fit.Gen.Mesgdef.tables`); the standard factory's `CreateField` is read from the
 regenerated dump of the factory (`Fit.Gen.Prof.mesgs`). Syntax: harness/fam_typed.go.
 `--spec`: `typedrt` → `typedNormalFull` (what the property demands; equal to `typedNormal`, what the code does, outside the
-classes of KF-C13-1 / KF-C13-2, which `--kf` names); `typedid` → the struct itself when `inRange` (else n/a).
+classes of KF-C13-1 / KF-C13-2 / KF-C13-3, which `--kf` names); `typedid` → `normDoc` of the struct (the struct up to the
+documented normalisation: `C13_struct_mesg_struct_partial`) unless the struct is outside the property's quantifier
+(`hasTimeBeyond`, `¬ unknownsOk`: n/a); `typedmsm` (a struct as `Reset` builds it, then through ToMesg and back) → the same,
+`--kf` names KF-C13-2 when the struct carries a mark on a non-eligible number (`hasStrayBit`).
 `typednils`: as `typedrt`, but every EMPTY array value of the message is handed to the code as a proto.Value built from a
 nil Go slice; for the accessors (`SliceUint8()` … on a nil slice return nil) that is the invalid value, so the model
 replaces the value of every stored field by `.invalid` (`nilify`); unknown fields are kept verbatim and print the same.
@@ -144,7 +148,8 @@ def kfOf (nils : Bool) (args : List String) : String :=
     match tableOf name, parseMessage m with
     | some T, some msg0 =>
       let msg := if nils then nilify T msg0 else msg0
-      let ids := (if hasForeign T msg then ["KF-C13-1"] else []) ++ (if hasStrayMark T msg then ["KF-C13-2"] else [])
+      let ids := (if hasForeign T msg then ["KF-C13-1"] else []) ++ (if hasStrayMark T msg then ["KF-C13-2"] else []) ++
+        (if hasLostDev T msg then ["KF-C13-3"] else [])
       if ids.isEmpty then "-" else ",".intercalate ids
     | _, _ => "-"
   | _ => "-"
@@ -173,11 +178,31 @@ def structId (spec : Bool) (args : List String) : String :=
       match parseStruct T s with
       | none => "bad-op"
       | some st =>
-        if spec then (if inRange T st then printStruct T st else "n/a") else
+        if spec then
+          (if wellTyped T st && unknownsOk T st && !hasTimeBeyond T st then printStruct T (normDoc T st) else "n/a") else
         match ofMesg T (toMesg T (facField .std T.num) { includeExpanded := true } st) with
         | .panic => "panic"
         | .ok st' => printStruct T st'
   | _ => "bad-op"
+
+/-- `typedmsm <Name> <message>`: `s := NewXxx(&m)`; `s' := NewXxx(&s.ToMesg({std, IncludeExpandedFields}))` → `<s> <s'>`;
+mode 1 = what the property demands for `s'` (`normDoc s`), mode 2 = the known-finding classes -/
+def mesgStructBack (mode : Nat) (args : List String) : String :=
+  match args with
+  | [name, m] =>
+    match tableOf name, parseMessage m with
+    | some T, some msg =>
+      match ofMesg T msg with
+      | .panic => if mode == 0 then "panic" else if mode == 1 then "n/a" else "-"
+      | .ok st =>
+        if mode == 2 then (if hasStrayBit T st then "KF-C13-2" else "-") else
+        if mode == 1 then
+          (if wellTyped T st && unknownsOk T st && !hasTimeBeyond T st then printStruct T st ++ " " ++ printStruct T (normDoc T st) else "n/a") else
+        match ofMesg T (toMesg T (facField .std T.num) { includeExpanded := true } st) with
+        | .panic => "panic"
+        | .ok st' => printStruct T st ++ " " ++ printStruct T st'
+    | _, _ => if mode == 0 then "bad-op" else if mode == 1 then "n/a" else "-"
+  | _ => if mode == 0 then "bad-op" else if mode == 1 then "n/a" else "-"
 
 def nilStruct (args : List String) : String :=
   match args with
@@ -246,6 +271,12 @@ def hID : Handler := fun r =>
     | "bad-op" => "n/a"
     | s => s
   | .kf => "-"
+  | .prop => "n/a"
+def hMSM : Handler := fun r =>
+  match r.mode with
+  | .model => mesgStructBack 0 r.args
+  | .spec => mesgStructBack 1 r.args
+  | .kf => mesgStructBack 2 r.args
   | .prop => "n/a"
 def hNil : Handler := modelOnly nilStruct
 def hSeq : Handler := modelOnly resetReuse
